@@ -18,7 +18,9 @@ Protocol handler of the C16 slice.  One line = one history of `ReadEntity` calls
 The body itself does not travel: the model never looks into bytes, so a body is a token and the
 codec of the model is the table of facts the harness measured with the standard library alone.
 The answer gives, per read, every result the model allows, the decoder and lookup path taken, the
-ledger and the reader object, the spec predicate on the REAL observation and the two finding classes:
+ledger and the reader object, the spec predicate on the REAL observation and two classes: f62, the
+class of the open finding F62, and f61, the class of the finding F61 repaired by 75d0593 (coverage
+only: the check counts how often its stream visits it; it excuses nothing):
 
   (out <id> (r (res <result>…) (dec gzip|deflate|identity) (acc <lookup>) (ev …) (rid …) (tag …) (s 0|1) (cl <6 clause bits>) (f61 0|1) (f62 0|1))… (spec C16 0|1) (wf 0|1))
 -/
@@ -146,7 +148,8 @@ def tableCodec (reads : List ReadLine) : Codec Str :=
       | some r => if r.zlF.hdr then some ⟨'Z' :: b, r.zlF.clean⟩ else none
       | none => none,
     gzRead := fun r => ungz r.src,                                          -- the Reset law, validated by the harness
-    gzLeft := fun r => r.src }
+    gzLeft := fun r => r.src,
+    gzEnd := fun r => '$' :: r.residue }
 
 def encResult : Result Str → String
   | .ok v => s!"(ok {hex v})"
